@@ -2,6 +2,7 @@ CONSTANTS
   Dev = {"BugDepthOffByOne"}
   Alphabet <- AlphaTok
   MaxLen = 2
+  Prune = FALSE
   DepthProbe = {0, 1}
 INIT MInit
 NEXT MNext
